@@ -140,6 +140,7 @@ type cScenario struct {
 	Conns   []*cConn
 	Focus   string
 	OutName string // name of the output directory ("" = out)
+	PreDir  bool   // the output directory already has its constant-recordings folder (left by an earlier run of the daemon)
 }
 
 func (sc *cScenario) outName() string {
@@ -722,6 +723,9 @@ func execPlain(sc *cScenario) *cResult {
 	outDir := filepath.Join(root, sc.outName())
 	os.MkdirAll(confDir, 0755)
 	os.MkdirAll(outDir, 0755)
+	if sc.PreDir {
+		os.MkdirAll(filepath.Join(outDir, "constant-recordings"), 0755)
+	}
 	res.OutDir = outDir
 	resetProcessGlobals()
 	var logBuf bytes.Buffer
@@ -1158,6 +1162,7 @@ func firstOr(v []int) int {
 func runCE2E(r *verifsim.Run) {
 	sc := &cScenario{Focus: r.Prop}
 	sc.OutName = outNames[r.Draw(len(outNames))]
+	sc.PreDir = r.Chance(1, 3)
 	nConn := r.OneOf(1, 1, 2)
 	if r.Chance(1, 20) {
 		nConn = r.Range(3, 6) // the camera daemon keeps restarting
@@ -2288,7 +2293,7 @@ func attributeRecordingRules(r *verifsim.Run, sc *cScenario, exp []refRec, act [
 				return
 			}
 			if seen[id] {
-				r.Violate("C01", "C01.dup", "file", "frame id %d is stored in two motion recordings", id)
+				r.Violate("C01", "C01.dup", "file", "frame id %d is stored in two recordings of the motion output directory", id)
 				return
 			}
 			seen[id] = true
